@@ -312,6 +312,18 @@ def workload(tier, rng, shard, nshards, work):
     from praatio.utilities import textgrid_io
 
     with contextlib.redirect_stdout(io.StringIO()):
+        # a file of realistic size whose text is not ASCII (a few thousand intervals labelled in Cyrillic, Greek, Chinese): more than 64 KiB
+        # of text, and more bytes than characters
+        for _big in range(1 if tier == "quick" else 3):
+            nint = rng.randrange(3000, 4200)
+            word = rng.choice(["\u043f\u0440\u0438\u0432\u0435\u0442", "\u03bb\u03cc\u03b3\u03bf\u03c2", "\u4f60\u597d\u4e16\u754c", "caf\u00e9"])
+            ents_ = [(round(i * 0.25, 2), round(i * 0.25 + 0.2, 2), "%s%d" % (word, i % 7)) for i in range(nint)]
+            big = {"min": 0.0, "max": nint * 0.25, "tiers": [{"t": "I", "name": word, "min": 0.0, "max": nint * 0.25, "entries": ents_},
+                                                             {"t": "P", "name": "p", "min": 0.0, "max": nint * 0.25, "entries": [(1.0, word)]}]}
+            tgb = TC.build_tg(big)
+            REC.cls("C02:non-ascii-file-of-more-than-64KiB")
+            for fmt in rng.sample(TC.FORMATS, 2 if tier == "quick" else 4):
+                call(tgb.save, os.path.join(str(work), "big_%s" % fmt), fmt, rng.random() < 0.5)
         n = (2400 if tier == "quick" else 50000) // nshards
         k = 0
         for i in range(n):
